@@ -24,6 +24,7 @@ import (
 	_ "google.golang.org/protobuf/cmd/protoc-gen-go/testdata/protoeditions"
 	"google.golang.org/protobuf/internal/impl"
 	_ "google.golang.org/protobuf/internal/testprotos/lazy"
+	_ "google.golang.org/protobuf/internal/testprotos/mixed"
 	"google.golang.org/protobuf/runtime/protoiface"
 	_ "google.golang.org/protobuf/internal/testprotos/lazy/lazy_opaque"
 	_ "google.golang.org/protobuf/internal/testprotos/required"
@@ -83,6 +84,9 @@ var rootTypes = []string{
 	"opaque.lazy_tree.Node",
 	"lazy_normalized_wire_test.FTop",
 	// oneofs whose members share a Go type, every scalar kind in optional/required/repeated/map position
+	// several lazy fields in one message, mixed API levels
+	"goproto.proto.test.Open", "goproto.proto.test.Hybrid", "goproto.proto.test.Opaque",
+	"goproto.proto.test.OpenLazy", "goproto.proto.test.HybridLazy", "goproto.proto.test.OpaqueLazy",
 	"goproto.protoc.proto2.FieldTestMessage",
 	"goproto.protoc.proto3.FieldTestMessage",
 	"goproto.protoc.protoeditions.FieldTestMessage",
